@@ -1729,6 +1729,12 @@ int parse_instruction_68000(AsmContext *asm_context, char *instr)
         while (1)
         {
           token_type = tokens_get(asm_context, token, TOKENLEN);
+          if (token_type == TOKEN_EOL || token_type == TOKEN_EOF)
+          {
+            // The closing parenthesis is missing.
+            print_error_unexp(asm_context, token);
+            return -1;
+          }
           if (IS_TOKEN(token, ',')) { has_comma = 1; }
           else if (IS_TOKEN(token, ')')) { break; }
         }
